@@ -40,7 +40,14 @@ Targets == {GPrim(k) : k \in {"int", "int8", "uint16", "float32", "float64", "st
             GPtr(GPrim("int")), GPtr(GPrim("string")), GPtr(GSlice(GPrim("int"))), GStruct, GRec1, GRec2, GCty, GSlice(GCty), GSlice(GStruct), GMap(GPtr(GPrim("string")))}
 IntoVals == UNION {TakeN(AllVals(t), 8) \cup TakeN(UnkVals(t), 2) \cup {WithMk(v, <<"m1">>) : v \in TakeN(Vals(t, W), 1)} \cup UNION {TakeN(Weak1(v, TRUE), 2) : v \in TakeN(Vals(t, W), 2)}
                    : t \in PrimTypes \cup VT1 \cup TakeN(VT2, 5)} \cup {DynVal, Null(TDyn)}
-IntoLines == {[k |-> "ginto", vals |-> SetToSeq(IntoVals), gts |-> SetToSeq(Targets)]}
+\* objects with and without the attribute of a nilable struct field, longer and shorter lists, decoded one after the other into the same kinds of target
+OFull == MapV(TObj([a |-> TNum, b |-> TStr]), [a |-> NumV(4), b |-> StrV(<<"a">>)])
+OPart == MapV(TObj([a |-> TNum]), [a |-> NumV(8)])
+ReuseSeq == <<OFull, OPart, SeqV(TList(OFull.ty), <<OFull, OFull>>), SeqV(TList(OPart.ty), <<OPart>>), SeqV(TList(TNum), <<NumV(4), NumV(8), NumV(0)>>), SeqV(TList(TNum), <<NumV(8)>>),
+              SeqV(TSet(TStr), <<StrV(<<"a">>), StrV(<<"b">>)>>), SeqV(TSet(TStr), <<StrV(<<"a", "b">>)>>), MapV(TMap(TStr), [a |-> StrV(<<"a">>), b |-> StrV(<<"b">>)]), MapV(TMap(TStr), [b |-> Null(TStr)]),
+              SeqV(TList(TList(TNum)), <<SeqV(TList(TNum), <<NumV(4), NumV(8)>>)>>), SeqV(TList(TList(TNum)), <<SeqV(TList(TNum), <<NumV(0)>>)>>)>>
+IntoLines == {[k |-> "ginto", vals |-> SetToSeq(IntoVals), gts |-> SetToSeq(Targets)],
+              [k |-> "ginto", vals |-> ReuseSeq \o ReuseSeq, gts |-> <<GStruct, GSlice(GStruct), GSlice(GPrim("int")), GSlice(GPrim("string")), GMap(GPtr(GPrim("string"))), GSlice(GSlice(GPrim("int"))), GMap(GPrim("string"))>>]}
 ASSUME LET sq == SetToSeq(NumLines \cup RtLines) \o SetToSeq(IntoLines) IN ndJsonSerialize(IOEnv.VOUT, sq) /\ PrintT(<<"GEN", Len(sq)>>)
 VARIABLE x
 Init == x = 0
